@@ -1220,6 +1220,14 @@ class Interp:
                 return o.qual
             if name in o.attrs:
                 return o.attrs[name]
+            if name == "__code__":
+                # one code object per function definition: closures created from the same `def`/lambda share it
+                code = getattr(o.node, "_verif_code", None)
+                if code is None:
+                    code = o.node._verif_code = Tok(("code", getattr(o.node, "lineno", 0), getattr(o.node, "col_offset", 0), o.module.name), f"<code {o.qual}>")
+                return code
+            if name == "__module__":
+                return o.module.name
             if name in ("__doc__",):
                 return None
             raise self.attr_error(o, name)
@@ -1385,6 +1393,10 @@ class Interp:
             return v.truthy
         if isinstance(v, (Opaque, Digest)):
             raise Unknown(f"truth value of opaque {v!r}")
+        if type(v).__name__ == "LenV":
+            if v.lo > 0:
+                return True
+            raise Unknown("truth value of the length of an opaque sequence")
         if isinstance(v, Poison):
             raise Unknown(v.why)
         if isinstance(v, (IterV, GenV)):
